@@ -93,6 +93,7 @@ package http
 //@   ensures* kept: ct0 != "" ==> ctOf(r.Header) == ct0
 
 //@ func (*unsupportedDecoder).Decode
+//@   params e _
 //@   property C15
 //@   requires e != nil
 //@   ensures* err: result != nil && asSE(result) != 0 && ptr(*goa.ServiceError, asSE(result)).Name == "unsupported_media_type"
